@@ -445,6 +445,9 @@ def main(argv=None):
 
 def check(pid, tier, seed, a, wd, t0):
     meta = prop_meta(pid)
+    if tier == "thorough":
+        # thorough runs may share the machine with other long runs: give coqc shards more head-room
+        meta["coq_case_timeout"] = 4 * meta.get("coq_case_timeout", 900)
     violations = []      # (line, )
     known_lines = []
     notes = []
